@@ -160,7 +160,7 @@ def build_engine(config, name, sources, extra_cflags=(), extra_ld=(), cxx=False)
     srcs = [os.path.join(SRC, s) for s in sources]
     hdrs = glob.glob(os.path.join(SRC, "*.h"))
     flags = cfg["cflags"] + list(extra_cflags)
-    digest = _hash(srcs + hdrs + [lib], " ".join(flags + list(extra_ld)))
+    digest = _hash(srcs + hdrs + [lib, os.path.join(bdir, "wrap.o")], " ".join(flags + list(extra_ld)))
     stamp = out + ".stamp"
     if os.path.exists(out) and _stamp_ok(stamp, digest):
         return out
